@@ -5,6 +5,14 @@ ALL=[f"C{n:02d}" for n in range(1,21)]
 hooks=subprocess.run("git -C /repo log --format=%H --grep='^verif hook:'",shell=True,capture_output=True,text=True).stdout.split()
 # id -> (engine, technique, level text, level_note, design_ref)
 CHECKS={
+ "C01":("explicit-state BFS by history replay","explicit-state breadth-first search over all reachable registry states of the real StateRegistry (history replay per transition) against a stack-of-maps reference, plus a history-complete (unmerged) search",
+        "All reachable states of the real registry for <= 3 types x 3 values x <= 3 scopes (266 304 states thorough, 4 368 quick) are enumerated; from each one every operation of a ~130-operation alphabet is executed on a freshly rebuilt real object and compared (return value and full dump of every scope) with a stack of typed maps. A second search without state merging covers hidden state up to history length 4 (quick) / 5 (thorough).",
+        "More types / values / scopes are assumed uniform (per-scope HashMap keyed by TypeId, values never inspected). No guard is alive between operations (C02 covers live guards).",
+        "DESIGN.md 5 C01"),
+ "C04":("explicit-state BFS by history replay","explicit-state breadth-first search over all reachable population stacks of the real Populations type and utility components (history replay per transition) against a Vec<Vec<Tag>> reference",
+        "All reachable stacks up to the height / population-size bound (tags renamed in order of first appearance) are enumerated on the real Populations; from each, every accessor, edit, rotation and population-utility component is executed on a freshly rebuilt real object and compared with a plain stack; rotation is checked for 'exactly the top n shift by one' and separately for the documented direction.",
+        "Larger heights and population sizes are assumed uniform; tags are opaque to every stack operation, objective ranks are kept in the key because the split component reads them.",
+        "DESIGN.md 5 C04"),
  "C09":("enumeration","exhaustive enumeration of all constructions, pairs, triples and arithmetic results over a grid of special doubles on the real types, against IEEE reference semantics",
         "Every construction, every ordered pair, every triple and every arithmetic result over a 38-value grid of special doubles (and all 156 vectors of length <= 3 over a 5-value grid for the multi-objective type) is executed on the real types and compared with IEEE/Pareto reference semantics. Exhaustive over the grid; a sample-free decision for every value class the code can distinguish.",
         "Values outside the grid are assumed to behave like their class representative (zero, subnormal, ordinary, huge, infinite, NaN): the implementation only branches on is_nan / is_infinite / sign.",
